@@ -382,6 +382,15 @@ type c14PipeCall struct {
 // what the timed pipeline sequences exercised (reported in the evidence histogram)
 var c14PipeHist = map[string]int{}
 
+// oracle failures found while generating the timed pipeline sequences (reported by runC14)
+type c14PipeFail struct {
+	id   int
+	what string
+	rec  any
+}
+
+var c14PipeFails []c14PipeFail
+
 func c14GenPipe(r *rand.Rand, id int) (string, any, bool) {
 	questions := []c14Question{{Kind: "query", Arg: "up"}, {Kind: "query", Arg: "count(up)"}, {Kind: "config"}, {Kind: "flags"}, {Kind: "metadata", Arg: "foo_total"}, {Kind: "metadata", Arg: "bar"}}
 	var failNext atomic.Bool
@@ -424,9 +433,32 @@ func c14GenPipe(r *rand.Rand, id int) (string, any, bool) {
 	lastSet := map[int]int64{} // question -> clock value of its last successful request
 	hit := false
 	ctx := context.Background()
+	// oracle "answered once per cache lifetime": a question answered successfully at clock t must not reach the server again while no
+	// gc has run since and the clock is still within t + TTL (nothing but gc may remove an answer, and gc only after its TTL or maxStale)
+	gcSince := map[int]bool{}
+	var oracleFail string
+	burst, burstQ := 0, 0
 	for i := range calls {
+		// refresh burst: the clock jumps past the TTL of an answered question WITHOUT a gc, then the question is asked three times in a
+		// row (the first may refresh the answer; the others must be served from it)
+		if burst == 0 && len(lastSet) > 0 && i+3 <= len(calls) && r.Intn(4) == 0 {
+			qs := make([]int, 0, len(lastSet))
+			for q := range lastSet {
+				qs = append(qs, q)
+			}
+			sort.Ints(qs)
+			burstQ = qs[r.Intn(len(qs))]
+			d := lastSet[burstQ] + int64(ttls[burstQ]) + 1 + int64(r.Intn(3))*int64(time.Second) - clock.Load()
+			if d > 0 {
+				clock.Add(d)
+				ops = append(ops, fmt.Sprintf("PTick %s", coqZ(d)))
+				opsJSON = append(opsJSON, map[string]any{"tick_ns": d})
+			}
+			burst = 3
+			c14PipeHist["pipeline:refresh-burst-after-ttl"]++
+		}
 		// time passes: small steps, and jumps exactly onto / 1 ns before / 1 ns after an entry's expiry or staleness instant
-		if r.Intn(5) < 2 {
+		if burst == 0 && r.Intn(5) < 2 {
 			var d int64
 			switch r.Intn(6) {
 			case 0:
@@ -455,14 +487,21 @@ func c14GenPipe(r *rand.Rand, id int) (string, any, bool) {
 			ops = append(ops, fmt.Sprintf("PTick %s", coqZ(d)))
 			opsJSON = append(opsJSON, map[string]any{"tick_ns": d})
 		}
-		if r.Intn(3) == 0 {
+		if burst == 0 && r.Intn(3) == 0 {
 			left := prom.C14Gc()
 			ops = append(ops, fmt.Sprintf("PGc %d", left))
 			opsJSON = append(opsJSON, map[string]any{"gc_entries_left": left})
+			for q := range lastSet {
+				gcSince[q] = true
+			}
 		}
 		c := &calls[i]
 		c.Q = r.Intn(len(questions))
 		c.Fail = r.Intn(4) == 0
+		if burst > 0 {
+			c.Q, c.Fail = burstQ, false
+			burst--
+		}
 		failNext.Store(c.Fail)
 		before := asked.Load()
 		q := questions[c.Q]
@@ -508,10 +547,15 @@ func c14GenPipe(r *rand.Rand, id int) (string, any, bool) {
 					c14PipeHist["pipeline:hit-after-time-passed"]++
 				}
 			} else {
-				if _, again := lastSet[c.Q]; again {
+				if t0, again := lastSet[c.Q]; again {
 					c14PipeHist["pipeline:asked-again-after-eviction"]++
+					if !gcSince[c.Q] && clock.Load()-t0 <= int64(ttls[c.Q]) && oracleFail == "" {
+						oracleFail = fmt.Sprintf("pipeline call %d: question %d (%s) was answered successfully at clock +%s, no gc has run since and its TTL (%s) has not run out at +%s, yet the identical question reached the server again: the answer is not reused for its cache lifetime",
+							i+1, c.Q, questions[c.Q].String(), time.Duration(t0), ttls[c.Q], time.Duration(clock.Load()))
+					}
 				}
 				lastSet[c.Q] = clock.Load()
+				gcSince[c.Q] = false
 			}
 		}
 		ops = append(ops, fmt.Sprintf("PCall (mk_pcall %d %s %s %s %d)", c.Q, coqBool(c.Fail), coqBool(c.Asked), coqBool(c.OK), c.Value))
@@ -520,6 +564,9 @@ func c14GenPipe(r *rand.Rand, id int) (string, any, bool) {
 	tt := make([]string, len(ttls))
 	for i, t := range ttls {
 		tt[i] = coqZ(int64(t))
+	}
+	if oracleFail != "" {
+		c14PipeFails = append(c14PipeFails, c14PipeFail{id: id, what: oracleFail, rec: map[string]any{"kind": "pipeline", "pool": pool, "max_stale_ns": int64(maxStale), "ttl_ns": ttls, "ops": opsJSON}})
 	}
 	term := fmt.Sprintf("PipeCase %s %d %s %s %s", coqN(id), pool, coqZ(int64(maxStale)), coqList(tt), coqList(ops))
 	return term, map[string]any{"kind": "pipeline", "pool": pool, "max_stale_ns": int64(maxStale), "ttl_ns": ttls, "ops": opsJSON}, hit
@@ -1116,6 +1163,9 @@ func runC14(args []string) int {
 	}
 	cw.flush()
 	seqTime := time.Since(t0)
+	for _, pf := range c14PipeFails {
+		rep.fail(fmt.Sprint(pf.id), pf.what, pf.rec)
+	}
 	for k, v := range c14PipeHist {
 		for i := 0; i < v; i++ {
 			rep.hist(k)
